@@ -14,6 +14,9 @@ from mc.env.ashworld import FakeTransport, Recorder, scalar_state, split_wire
 
 CODES = [0x00, 0x01, 0x02, 0x03, 0x06, 0x09, 0x0B, 0x51, 0x80, 0xFF]
 PAYLOAD = bytes([0x10, 0x20, 0x30, 0x7E, 0x11])  # includes reserved values
+# a payload whose data field, AFTER randomisation, holds an escape byte in front of every byte an escape sequence can carry
+# (7D 31, 7D 33, 7D 38, 7D 3A, 7D 5D, 7D 5E, 7D 7D): every third frame fed to the receiver uses it
+TRICKY = ref_ash.randomize(bytes([0x7D, 0x31, 0x7D, 0x33, 0x7D, 0x38, 0x7D, 0x3A, 0x7D, 0x5D, 0x7D, 0x5E, 0x7D, 0x7D, 0x42]))
 
 
 def alphabet():
@@ -37,7 +40,7 @@ def alphabet():
 def encode(ev, tag=0) -> bytes:
     k = ev[0]
     if k == "DATA":
-        return ref_ash.wire(ref_ash.enc_data(ev[1], ev[2], ev[3], PAYLOAD + bytes([tag & 0xFF])))
+        return ref_ash.wire(ref_ash.enc_data(ev[1], ev[2], ev[3], (TRICKY if tag % 3 == 2 else PAYLOAD) + bytes([tag & 0xFF])))
     if k == "ACK":
         return ref_ash.wire(ref_ash.enc_ack(ev[1], ev[2]))
     if k == "NAK":
